@@ -170,6 +170,19 @@ fn c14_program(rng: &mut Rng) -> String {
                 // a method reached through the chain mutates the object that holds it
                 s.push_str(&format!("c{}.set(1, {}); print(\"chain ~\\n\", c{});\n", top, 300 + u, top));
             }
+            16 if rng.coin() => {
+                // a built-in reached through the chain checks its argument count too
+                let form = match base {
+                    1 => format!("c{}.{}(1, 2)", j, *rng.pick(&["+", "*", "==", "<"])),
+                    2 => format!("c{}.{}(true, false)", j, *rng.pick(&["&", "|", "=="])),
+                    3 => format!("c{}.{}", j, *rng.pick(&["get(0, 1)", "set(0)", "get()"])),
+                    _ => format!("c{}.m1()", j),
+                };
+                let shadowed = ["+", "*", "==", "<", "&", "|", "get", "set"].iter().any(|m| form.contains(&format!(".{}(", m)) && levels.iter().take(j + 1).any(|l| l.methods.iter().any(|x| x == m)));
+                if !shadowed {
+                    failing_last = Some(format!("print(\"=~\\n\", {});\n", form));
+                }
+            }
             16 => failing_last = Some(format!("print(\"=~\\n\", c{}.m1());\n", j)),
             17 => failing_last = Some(format!("print(\"=~\\n\", c{}.m0(1, 2));\n", j)),
             18 => failing_last = Some(format!("print(\"=~\\n\", c{}.nosuch(1));\n", j)),
@@ -310,7 +323,14 @@ fn c07_roundtrip(rep: &mut Report, origin: &str, ast: &AST, rng: &mut Rng, layou
                 continue;
             }
             rep.evaluations += 1;
-            let src = if layout == 0 { printer::join_plain(&toks) } else { printer::join_decorated(&toks, rng) };
+            let src = if layout == 0 {
+                printer::join_plain(&toks)
+            } else if layout == 1 && vi % 2 == 0 {
+                // no layout at all except where two tokens would merge
+                printer::join_tight(&toks)
+            } else {
+                printer::join_decorated(&toks, rng)
+            };
             match real::parse(&src) {
                 Ok(back) => {
                     rep.conclusive += 1;
@@ -389,6 +409,38 @@ pub fn c07(ctx: &Ctx, rep: &mut Report) {
         }
     }
     rep.count("operator_triples", 13 * 13 * 13);
+    // longer chains (4-9 operators), sampled, against the same independent climbing parser; written
+    // with and without blanks
+    let nc = ctx.share(12_000, 600_000);
+    let pool = ["a", "b", "c", "d", "e", "f", "g", "h", "i", "j"];
+    for i in 0..nc {
+        let mut rng = ctx.rng("C07chain", i);
+        let k = 4 + rng.below(6);
+        let ops: Vec<&str> = (0..k).map(|_| OPERATORS[rng.below(13)]).collect();
+        let operands: Vec<&str> = (0..=k).map(|j| pool[j]).collect();
+        let mut src = String::from(operands[0]);
+        let tight = i % 3 == 0;
+        for j in 0..k {
+            if tight {
+                src.push_str(&format!("{}{}", ops[j], operands[j + 1]));
+            } else {
+                src.push_str(&format!(" {} {}", ops[j], operands[j + 1]));
+            }
+        }
+        rep.evaluations += 1;
+        let expect = AST::top(vec![climb(&operands, &ops)]);
+        match real::parse(&src) {
+            Ok(ast) => {
+                rep.conclusive += 1;
+                rep.nontrivial(hash_str(&src));
+                if ast != expect {
+                    rep.violation("C07:precedence-chain", format!("`{}` parses to {:?}; the documented precedence/associativity gives {:?}", src, ast, expect), json!({"check":"C07","src":src,"expected_ast": serde_json::to_value(&expect).unwrap_or_default()}));
+                }
+            }
+            Err(e) => rep.violation("C07:precedence-chain-rejects", format!("`{}` is rejected: {}", src, e), json!({"check":"C07","src":src,"expected_ast": serde_json::to_value(&expect).unwrap_or_default()})),
+        }
+    }
+    rep.count("operator_chains_4_to_9", nc);
     // documented shapes: a[i] / a[i] <- v are get/set calls in the *compiler*; at the AST level
     // they are AccessArray / AssignArray; chains nest left to right; else binds to nearest if
     if ctx.shard == 0 {
